@@ -338,11 +338,12 @@ public:
                     case 7: { uint64_t i = uintv(v, "query-name-index"); ref_(2, i, "qr query-name"); m[7] = "qname=" + hex(names[i]); break; }
                     case 8: m[8] = "qsize=" + std::to_string(uintv(v, "query-size")); break;
                     case 9: m[9] = "rsize=" + std::to_string(uintv(v, "response-size")); break;
-                    case 10: { std::string o;
+                    case 10: { std::string o, o0, o1;
                         for (auto& pe : entries(v, "response processing data")) {
-                            if (pe.first == 0) { uint64_t i = uintv(*pe.second, "bailiwick-index"); ref_(2, i, "bailiwick"); o += "bail=" + hex(names[i]) + ";"; rpd |= 1; }
-                            else if (pe.first == 1) { o += "pflags=" + std::to_string(uintv(*pe.second, "processing-flags")) + ";"; rpd |= 2; }
+                            if (pe.first == 0) { uint64_t i = uintv(*pe.second, "bailiwick-index"); ref_(2, i, "bailiwick"); o0 = "bail=" + hex(names[i]) + ";"; rpd |= 1; }
+                            else if (pe.first == 1) { o1 = "pflags=" + std::to_string(uintv(*pe.second, "processing-flags")) + ";"; rpd |= 2; }
                         }
+                        o = o0 + o1;
                         if (!o.empty()) o.pop_back();
                         m[10] = o; break; }
                     case 11: case 12: { std::map<int, std::string> x; const char* p = e.first == 11 ? "q" : "r"; uint32_t& mask = e.first == 11 ? qe : re;
